@@ -88,7 +88,12 @@ class Ctx:
             WARM["G"] = G
             return G
         G = WARM["G"]
-        G.add_edges(self.edges(scn["edges"][k:]))
+        rest = self.edges(scn["edges"][k:])
+        if scn.get("warm_single"):
+            for a, b, m in rest:
+                G.add_edge(a, b, m)
+        else:
+            G.add_edges(rest)
         return G
 
     def divisor(self, G, degs, order=None):
@@ -276,6 +281,26 @@ def op_div_hist(scn):
             ok, _ = call(cfg.set_fire, {c.name(i) for i in o[1]}) if cfg else (False, None)
         elif kind == "cfg_degree_at":
             ok, ret = call(cfg.get_degree_at, c.name(o[1])) if cfg else (False, None)
+        elif kind == "swap":
+            if o[1] >= c.n or o[2] >= c.n:
+                ok = False
+            else:
+                da, db = D.get_degree(c.name(o[1])), D.get_degree(c.name(o[2]))
+                if da > db:
+                    ok, _ = call(D.chip_transfer, c.name(o[1]), c.name(o[2]), da - db)
+                elif db > da:
+                    ok, _ = call(D.chip_transfer, c.name(o[2]), c.name(o[1]), db - da)
+                else:
+                    ok = True
+        elif kind == "cfg_superstable":
+            ok, ret = call(cfg.is_superstable) if cfg else (False, None)
+            ret = int(bool(ret)) if ok else None
+        elif kind == "cfg_nonneg":
+            ok, ret = call(cfg.is_non_negative) if cfg else (False, None)
+            ret = int(bool(ret)) if ok else None
+        elif kind == "cfg_legal":
+            ok, ret = call(cfg.is_legal_set_firing, {c.name(i) for i in o[1]}) if cfg else (False, None)
+            ret = int(bool(ret)) if ok else None
         else:
             raise ValueError(kind)
         out["steps"].append({"ok": ok, "deg": c.degs(D), "ret": ret if ok else None,
@@ -447,9 +472,23 @@ def op_orient_hist(scn):
     if not ok:
         return {"ctor": "ERR"}
     out = {"ctor": odigest(c, G, O), "steps": []}
+    kept = None
     for o in scn.get("ops", []):
         kind = o[0]
-        if kind == "set":
+        if kind == "reverse_keep":
+            ok, R = call(O.reverse)
+            if ok:
+                kept = R
+            r = odigest(c, G, R) if ok else "ERR"
+        elif kind == "inspect_kept":
+            r = odigest(c, G, kept) if kept is not None else None
+        elif kind == "set_kept":
+            if kept is None or o[1] >= c.n or o[2] >= c.n:
+                r = "ERR"
+            else:
+                ok, _ = call(lambda: kept.set_orientation(Vertex(c.name(o[1])), Vertex(c.name(o[2])), OrientationState(o[3])))
+                r = "ok" if ok else "ERR"
+        elif kind == "set":
             ok, _ = call(lambda: O.set_orientation(Vertex(c.name(o[1])), Vertex(c.name(o[2])), OrientationState(o[3])))
             r = "ok" if ok else "ERR"
         elif kind == "get":
@@ -592,6 +631,11 @@ def op_dhar(scn):
         out["max_set_differs"] = sorted(c.index(nm) for nm in mx)
     dh.legal_set_fire(unburnt)
     out["after_fire"] = c.degs(D)
+    # run() asked directly on the divisor that still has its debt (run concentrates debt itself)
+    D3 = c.divisor(G, scn["deg"])
+    ok3, res3 = call(lambda: DharAlgorithm(G, D3, c.name(scn["q"])).run())
+    out["direct_unburnt"] = sorted(c.index(nm) for nm in res3[0]) if ok3 else "ERR"
+    out["direct_after"] = c.degs(D3)
     out["superstable"] = CFConfig(snapshot, c.name(scn["q"])).is_superstable()
     out["argtotal"] = D.get_total_degree()
     out["graph"] = c.gdigest(G)
@@ -720,6 +764,10 @@ def op_greedy(scn):
         out["certificate"] = None
         if script is not None:
             out["script"] = "NOT-NONE"
+    # the solver works on its own copy: stepping it by hand afterwards must not reach the caller's divisor
+    if c.n:
+        call(alg.borrowing_move, c.names[0])
+        call(alg.borrowing_move, c.names[-1])
     out["arg"] = c.degs(D)
     out["graph"] = c.gdigest(G)
     return out
@@ -874,10 +922,19 @@ def op_elements(scn):
         return "ERR"
     out = {}
     flags = []
-    for key, els in (("graph", V._graph_to_cytoscape_elements(G)),
-                     ("divisor", V._divisor_to_cytoscape_elements(D)),
-                     ("orientation", V._orientation_to_cytoscape_elements(O)),
-                     ("ewd", EWDVisualizer()._get_elements(D, O, set(), set(), c.names[0] if c.n else None))):
+    makers = {"graph": lambda: V._graph_to_cytoscape_elements(G),
+              "divisor": lambda: V._divisor_to_cytoscape_elements(D),
+              "orientation": lambda: V._orientation_to_cytoscape_elements(O),
+              "ewd": lambda: EWDVisualizer()._get_elements(D, O, set(), set(), c.names[0] if c.n else None)}
+    order = scn.get("draw_order") or ["graph", "divisor", "orientation", "ewd"]
+    if scn.get("second_orient") is not None:
+        # another (sparser) orientation on the same graph object, drawn after the first
+        ok2, O2 = call(CFOrientation, G, [(c.name(a), c.name(b)) for a, b in scn["second_orient"]])
+        if ok2:
+            makers["orientation2"] = lambda: V._orientation_to_cytoscape_elements(O2)
+            order = list(order) + ["orientation2"]
+    for key in order:
+        els = makers[key]()
         nodes, edges, bad = canon_elements(c, els)
         out[key + "_nodes"] = nodes
         out[key + "_edges"] = edges
@@ -1039,6 +1096,31 @@ def op_closed(scn):
          "parking_function_count": CC.parking_function_count}[scn["name"]]
     ok, v = call(f, scn["arg"])
     return {"value": v if ok else "ERR"}
+
+
+
+@op("dhar_batch")
+def op_dhar_batch(scn):
+    """several GonalityDharAlgorithm instances (other sinks / base divisors / graphs with the same
+    vertex names) asked about the same strategies through the batch entry point, in one process"""
+    from chipfiring.CFGonalityDhar import GonalityDharAlgorithm
+    c = Ctx(scn)
+    outs = []
+    for qd in scn["queries"]:
+        sub = dict(scn)
+        sub["edges"] = qd.get("edges", scn["edges"])
+        ok, G = call(c.graph, sub)
+        if not ok:
+            outs.append("ERR")
+            continue
+        base = c.divisor(G, qd["base"])
+        ok, alg = call(GonalityDharAlgorithm, G, base, c.name(qd["q"]))
+        if not ok:
+            outs.append("ERR")
+            continue
+        ok, res = call(alg.test_strategy_batch, [[c.name(i) for i in st] for st in qd["strategies"]])
+        outs.append([bool(x) for x in res] if ok else "ERR")
+    return {"answers": outs}
 
 
 # ----------------------------------------------------------------------------- main loop
